@@ -99,6 +99,7 @@ class ContractDB:
         self.type_aliases: dict[str, str] = {}
         self.typevar_bindings: dict[str, str] = {}
         self.lemmas: dict[str, tuple] = {}
+        self.code_lemmas: dict[str, tuple] = {}
         self.files: list[str] = []
         self.module_asts: dict[str, ast.Module] = {}
 
@@ -136,6 +137,8 @@ class ContractDB:
                 decos = [ast.unparse(d) for d in st.decorator_list]
                 if any(d.startswith("spec") for d in decos):
                     self.specs[st.name] = _SpecFunc(st.name, modname, st)
+                elif any(d.startswith("code_lemma") for d in decos):
+                    self.code_lemmas[st.name] = (modname, st)
                 elif any(d.startswith("lemma") for d in decos):
                     self.lemmas[st.name] = (modname, st)
             elif isinstance(st, ast.ClassDef):
